@@ -45,6 +45,8 @@ def make(rng, tier, big):
 
 
 def explore(res, tier, seed, model_ok=True):
+    import gencheck   # differential test of the translated code (Generated/Code.lean) against the original Python
+    gencheck.run(res, 'C01', tier, seed, model_ok)
     rng = random.Random(seed)
     n = 250 if tier == 'quick' else 4000
     nbig = 30 if tier == 'quick' else 300
